@@ -2,7 +2,7 @@
 
 Every generated access section (rule lists over a pool of 8 ACLs of the types src, dst, dstdomain, port and
 method, each literal possibly negated) is loaded into the real squid binary; then every request of a small
-universe (3 host names x 2 origin ports x {GET, POST, CONNECT} x 2 client source addresses = 36) is sent
+universe (3 host names x 2 origin ports x {GET, POST, CONNECT} x 2 client source addresses = 36, plus 4 requests with the extension methods SYNC and MKFOO = 40) is sent
 through it.  The driver owns a listener on every origin address/port of the universe.  Oracle: a reference
 first-match evaluator written from the squid.conf documentation of http_access and of the five ACL types:
 allowed <=> the request arrives at the origin it names; denied => 403 access-denied and zero arrivals.
@@ -31,7 +31,11 @@ def universe():
     return [{'src': s, 'host': h, 'port': p, 'method': m} for s in SOURCES for h, _ in HOSTS for p in PORTS for m in METHODS]
 
 
-UNIVERSE = universe()
+# Two extension methods Squid has no code for (all of them are METHOD_OTHER internally and differ only by name):
+# the method ACL below lists SYNC, so a SYNC request must match it and a MKFOO request must not.
+EXT_METHODS = ['SYNC', 'MKFOO']
+UNIVERSE = universe() + [{'src': '127.0.0.1', 'host': 'a.test', 'port': 'P1', 'method': m} for m in EXT_METHODS] \
+                      + [{'src': '127.0.0.2', 'host': 'c.test', 'port': 'P2', 'method': m} for m in EXT_METHODS]
 
 # ------------------------------------------------------------------ ACL pool: name -> (squid.conf text, reference predicate)
 # The predicates are written from the ACL documentation in squid.conf.documented (acl src / dst / dstdomain / port /
@@ -67,7 +71,7 @@ POOL = [
     ('domA', 'dstdomain .a.test', lambda r: _dom('.a.test', r['host'])),
     ('domAx', 'dstdomain a.test', lambda r: _dom('a.test', r['host'])),
     ('p1', 'port P1', lambda r: r['port'] == 'P1'),
-    ('mG', 'method GET', lambda r: r['method'] == 'GET'),
+    ('mG', 'method GET SYNC', lambda r: r['method'] in ('GET', 'SYNC')),
     ('mC', 'method CONNECT', lambda r: r['method'] == 'CONNECT'),
 ]
 POOLD = {n: (t, f) for n, t, f in POOL}
@@ -278,7 +282,7 @@ class CWorld:
             elif r['method'] == 'POST':
                 raw = 'POST http://%s/%s HTTP/1.1\r\nHost: %s\r\nContent-Length: 3\r\n\r\nabc' % (hp, tag, hp)
             else:
-                raw = 'GET http://%s/%s HTTP/1.1\r\nHost: %s\r\n\r\n' % (hp, tag, hp)
+                raw = '%s http://%s/%s HTTP/1.1\r\nHost: %s\r\n\r\n' % (r['method'], hp, tag, hp)
             c = self.client(r['src'])
             c.send(raw.encode('latin1'))
             st.append({'req': r, 'tag': tag, 'c': c, 'resp': None, 'tagsent': False, 'arrivals': [], 'done': False, 'raw': raw})
@@ -414,7 +418,7 @@ ASSUME = ['the real squid binary (ASan build of the current tree) runs under the
           'configurations after the first of an instance are loaded with SIGHUP (squid -k reconfigure path: the real parser builds '
           'the access list again); per shard some configurations are run both on an instance started directly with them and after a '
           'reconfiguration (thorough: two separate instances) and must give the same transcript',
-          'the 36 requests of a configuration are in flight together; every reported violation is reproduced alone on a fresh instance',
+          'the 40 requests of a configuration are in flight together; every reported violation is reproduced alone on a fresh instance',
           'host names resolve through hosts_file; unresolvable destinations, IPv6, deny_info, authentication and external ACLs are outside the bound']
 RULE = ('a configuration is non-trivial when, by observation, at least one request of the universe was forwarded and at least one was '
         'denied under it (the rule list discriminates inside the universe); evaluations counts (configuration, request) executions')
@@ -635,7 +639,7 @@ def run(ctx):
            'configuration_classes_complete': classes_complete,
            'subspace': ('L0 no rule; L1 every single rule with 1 literal (16 literals x allow/deny); L2 every single rule with 2 literals '
                         'over different ACLs or x !x (%s); L11d every list of 2 single-literal rules with different actions%s; '
-                        'each configuration x all 36 requests' % (
+                        'each configuration x all 40 requests' % (
                             'unordered pairs' if ctx.quick else 'both orders',
                             '' if ctx.quick else '; L11s the same with equal actions; L12/L21 every list of 2 rules with 1+2 / 2+1 literals')),
            'requests_forwarded': tot('allowed'), 'requests_denied_403': tot('denied'), 'distinct_decision_vectors': len(vectors),
